@@ -25,10 +25,13 @@
 (*              9,10,11 = the whole text "$(pkg-config --libs c1|c2|c3)"   *)
 (*   $NAME takes the longest run of name characters (A B l), ${NAME} is    *)
 (*   delimited; an unset variable is empty (sh 2.6.2); only A and B may    *)
-(*   be set.  Command c1 prints "-lA -lB", c2 prints "-l$A/l" (a dollar    *)
-(*   in the output is NOT a reference), c3 fails and contributes nothing.  *)
-(*   A "$" that starts none of these is outside the documented forms; the  *)
-(*   generator never produces one.                                         *)
+(*   be set; their VALUES may look like references or commands ($B, ${B},  *)
+(*   "$(pkg-config --libs c1)", 13 = the text "$(other)", a lone $) and    *)
+(*   are substituted verbatim all the same.  Command c1 prints "-lA -lB",  *)
+(*   c2 prints "-l$A/l" (a dollar in the output is NOT a reference), c3    *)
+(*   fails and contributes nothing.  In the TEMPLATE a "$" that starts     *)
+(*   none of these forms is outside the documented ones; the generator     *)
+(*   never writes one there.                                               *)
 (*   The resulting arguments: blanks around the result are dropped; an     *)
 (*   empty result gives no argument; if a command took part the result is  *)
 (*   a pkg-config flag string (here always blank-separated "-l..." flags), *)
@@ -79,8 +82,11 @@ DL == 1  DLB == 2  DRB == 3  NA == 4  NB == 5  DASH == 6  SP == 7  LL == 8  C1 =
 NameChars == {NA, NB, LL}
 DollarSegs == { <<DASH, LL>>, <<SP>>, <<LL>>, <<DL, NA>>, <<DL, NB>>, <<DL, DLB, NA, DRB>>, <<DL, DLB, NB, DRB>>,
                 <<C1>>, <<C2>>, <<C3>> }
-DValsA == { Absent, <<SL, LL>>, <<DL, NB>>, <<DASH, LL, NA, SP, DASH, LL>> }
-DValsB == { Absent, <<LL>>, <<DL, NA>> }
+\* a value is substituted verbatim whatever it looks like: a reference, a command, a make-style $(NAME), a lone $
+OTH == 13    \* the whole text "$(other)"
+DValsA == { Absent, <<SL, LL>>, <<DL, NB>>, <<DL, DLB, NB, DRB>>, <<DASH, LL, NA, SP, DASH, LL>>,
+            <<C1>>, <<OTH>>, <<DL>> }
+DValsB == { Absent, <<LL>>, <<DL, NA>>, <<OTH>> }
 CmdOut == [c \in {C1, C2, C3} |-> CASE c = C1 -> <<DASH, LL, NA, SP, DASH, LL, NB>>
                                      [] c = C2 -> <<DASH, LL, DL, NA, SL, LL>>
                                      [] c = C3 -> <<>>]
